@@ -32,8 +32,8 @@ package fs
 //@ spec func min64(a int64, b int64) int64 = ite(a < b, a, b)
 //@ spec func max64(a int64, b int64) int64 = ite(a < b, b, a)
 
-// Invariant of the abstract state for an open handle (an open handle is an allocated object).
-//@ spec func fileOK(f File) bool = f != nil && allocated(f) && hOpen[f] && fidOf[f] != 0 && 0 <= fDur[fidOf[f]] && fDur[fidOf[f]] <= fLen[fidOf[f]] && fLen[fidOf[f]] <= 0x1000000000000
+// Invariant of the abstract state for an open handle.
+//@ spec func fileOK(f File) bool = f != nil && hOpen[f] && fidOf[f] != 0 && 0 <= fDur[fidOf[f]] && fDur[fidOf[f]] <= fLen[fidOf[f]] && fLen[fidOf[f]] <= 0x1000000000000
 
 //@ func (f File) WriteAt(p []byte, off int64) (n int, err error)
 //@   requires off: off >= 0 && off <= 0x1000000000000
